@@ -323,6 +323,15 @@ func TestC14_Probes(t *testing.T) {
 	default:
 		c.NonTrivial("huge-ex")
 	}
+	// observation only (reported to the lead, not asserted): JSET / JDEL rebuild the
+	// object with deadline 0, i.e. silently make an object with a TTL permanent
+	conn.MustDo("SET", "kj", "a", "EX", "5", "STRING", `{"a":1}`)
+	conn.MustDo("JSET", "kj", "a", "b", "2")
+	if v := conn.MustDo("TTL", "kj", "a"); v.Kind == ':' && v.Int == -1 {
+		c.Label("impl-mirrored:jset-drops-the-deadline")
+	} else {
+		c.Label("jset-keeps-the-deadline")
+	}
 }
 
 // followerProbe reproduces findingFollower directly: an object with a short
@@ -463,6 +472,8 @@ func TestReplay(t *testing.T) {
 		replaySweepRace(t, c, doc.Data)
 	case "roles":
 		replayRoles(t, c, doc.Data)
+	case "readload":
+		replayReadLoad(t, c, doc.Data)
 	case "probes":
 		c.Case()
 		if bad, err := hugeEXProbe(); err == nil && bad != "" {
